@@ -1,6 +1,7 @@
 import DarkluaModel.C05.Lemmas
 import DarkluaModel.C05.Graph
 import DarkluaModel.C05.Dag
+import DarkluaModel.C05.Complete
 /-!
 # C05 — a bundle behaves like the program with its modules required normally: property theorems
 
@@ -501,6 +502,50 @@ theorem inline_wellformed_acyclic_ok (G : Graph P) (entrySites : List (Site P))
     obtain ⟨ps, hps⟩ := inline_wellformed_errors_cyclic G entrySites hwf e hmem
     subst hps
     exact hac ⟨ps, inline_cyclic_sound G entrySites ps hmem⟩
+
+theorem path_rank (G : Graph P) (fin : List P) (rk : P → Nat)
+    (hrk : ∀ p, p ∈ fin → ∀ q, Edge G p q → q ∈ fin ∧ rk q < rk p) :
+    ∀ (l : List P) (a z : P), IsPath G (a :: (l ++ [z])) → a ∈ fin → rk z < rk a := by
+  intro l
+  induction l with
+  | nil => intro a z hp ha; exact (hrk a ha z hp.1).2
+  | cons b l ih =>
+    intro a z hp ha
+    have hb := hrk a ha b hp.1
+    have := ih b z hp.2 hb.1
+    omega
+
+/-- **Cycle detection is complete**, whatever else is wrong with the graph (missing files, syntax
+errors, wrong return shapes, bad extensions, excluded or shadowed requires): if some cycle of
+requires is reachable from the entry, the walk collects at least one `cyclic` error. -/
+theorem inline_cyclic_complete (G : Graph P) (entrySites : List (Site P))
+    (hcyc : ∃ ps, GoodCycle G (Reach G entrySites) ps) :
+    ∃ ps, Err.cyclic ps ∈ (inlineAll G entrySites).errors := by
+  have hspec := visit_specC G [] (inlineRequire G (G.length + 1) []) true entrySites
+    (inlineRequire_errPre G (G.length + 1) [])
+    (fun s _ q _ => inlineRequire_specC G (G.length + 1) [] q (by rw [free_nil]; omega))
+    St.empty (Or.inr ⟨⟨fun _ => 0, by intro p hp; simp [St.finished, St.empty] at hp⟩, by intro x hx; cases hx⟩)
+  rcases hspec with h | ⟨⟨rk, hrk⟩, _, _, hdone⟩
+  · exact h
+  · exfalso
+    obtain ⟨ps, hpath, ⟨c, mid, hps⟩, hreach⟩ := hcyc
+    have hfin : ∀ p, Reach G entrySites p →
+        p ∈ (visit (inlineRequire G (G.length + 1) []) true entrySites St.empty).2.finished := by
+      intro p hp
+      induction hp with
+      | root hq =>
+        obtain ⟨s, hs, hsh, ht⟩ := hq
+        exact hdone s hs _ (by simp [activeTarget, hsh, ht])
+      | step _ he ih => exact (hrk _ ih _ he).1
+    subst hps
+    have hc := hfin c (hreach c (by simp))
+    have := path_rank G _ rk hrk mid c c hpath hc
+    omega
+
+/-- **`cyclic` is reported iff a cycle is reachable from the entry** (on every finite graph). -/
+theorem inline_cyclic_iff (G : Graph P) (entrySites : List (Site P)) :
+    (∃ ps, Err.cyclic ps ∈ (inlineAll G entrySites).errors) ↔ ∃ ps, GoodCycle G (Reach G entrySites) ps :=
+  ⟨fun ⟨ps, h⟩ => ⟨ps, inline_cyclic_sound G entrySites ps h⟩, inline_cyclic_complete G entrySites⟩
 
 end graph
 
